@@ -353,7 +353,7 @@ class ModuleFinder:
                 self.iter_submodules(module.filepath),
                 self.iter_submodules(self._always_scan_for[module.name]),
             ),
-            key=_module_depth,
+            key=_module_order,
         )
 
     def _module_name_path(self, path: Path) -> tuple[str, Path]:
@@ -433,6 +433,17 @@ def _is_pkg_style_namespace(init_module: Path) -> bool:
 
 def _module_depth(name_parts_and_path: NamePartsAndPathType) -> int:
     return len(name_parts_and_path[0])
+
+
+# When several files provide the same module (`a.py`, `a.pyc`, `a.so`), the last one loaded wins:
+# order them like Python's own file finder prefers them (extension modules, then sources, then bytecode).
+_suffix_order = {".pyc": 0, ".pyo": 0, ".py": 1, ".pyi": 1}
+
+
+def _module_order(name_parts_and_path: NamePartsAndPathType) -> tuple[int, NamePartsType, int, str]:
+    # A total order: the result must not depend on the order in which the file system lists entries.
+    name_parts, path = name_parts_and_path
+    return len(name_parts), name_parts, _suffix_order.get(path.suffix, 2), str(path)
 
 
 @dataclass
